@@ -61,6 +61,11 @@ const OVERLOADS: &[usize] = &[20, 21, 22, 23];
 pub const STRINGS: &[&str] = &[
     "read", "write", "resource", "file1", "file2", "/a/file", "admin", "x",
 ];
+/// the default symbol table of the specification
+pub const DEFAULT_SYMBOL_STRINGS: &[&str] = &[
+    "read", "write", "resource", "operation", "right", "time", "role", "owner", "tenant", "namespace", "user", "team", "service", "admin", "email", "group",
+    "member", "ip_address", "client", "client_ip", "domain", "path", "version", "cluster", "node", "hostname", "nonce", "query",
+];
 /// patterns within the subset of regular expressions the reference evaluator implements
 pub const REGEXES: &[&str] = &["^file", "file[0-9]$", "^/a/.*", "re.d", "e$", "^x?$", "[a-z]+[12]", "^(read|write)$", "i"];
 pub const INTS: &[i64] = &[-2, -1, 0, 1, 2, 3];
@@ -97,6 +102,10 @@ impl GenCfg {
         let mut strings: Vec<&'static str> = STRINGS.to_vec();
         rng.shuffle(&mut strings);
         strings.truncate(rng.range(2, 4));
+        // every string of the default symbol table turns up in some run
+        if rng.chance(1, 2) {
+            strings.push(*rng.pick(DEFAULT_SYMBOL_STRINGS));
+        }
         let mut ints = INTS.to_vec();
         rng.shuffle(&mut ints);
         ints.truncate(rng.range(2, 4));
